@@ -18,6 +18,7 @@ import (
 	"bytes"
 	"context"
 	"fmt"
+	"strings"
 	"sync"
 
 	"github.com/openGemini/openGemini/engine/hybridqp"
@@ -1064,7 +1065,8 @@ func updateStringPrevWindowFunc(input Chunk, window *prevWindow, prevValues []in
 		}
 	} else {
 		inCol := input.Column(ordinal)
-		window.value[ordinal] = inCol.StringValue(inCol.GetValueIndexV2(input.Len() - 1))
+		// StringValue aliases the chunk's byte buffer, which is reused once the producer's chunk pool wraps around
+		window.value[ordinal] = strings.Clone(inCol.StringValue(inCol.GetValueIndexV2(input.Len() - 1)))
 		window.nil[ordinal] = false
 	}
 }
@@ -1120,8 +1122,9 @@ func updateFloatPrevValuesFunc(prev Chunk, prevValues []interface{}, ordinal int
 func updateStringPrevValuesFunc(prev Chunk, prevValues []interface{}, ordinal int) {
 	column := prev.Column(ordinal)
 	vi := column.Length() - column.NilCount() - 1
-	if vi > 0 {
-		prevValues[ordinal] = prev.Column(ordinal).StringValue(vi)
+	if vi >= 0 {
+		// StringValue aliases the chunk's byte buffer, which is reused once the producer's chunk pool wraps around
+		prevValues[ordinal] = strings.Clone(prev.Column(ordinal).StringValue(vi))
 	}
 }
 
